@@ -162,3 +162,10 @@ func (m *mvcc) canon() string {
 	fmt.Fprintf(&b, "floor=%d", rank[m.floor])
 	return b.String()
 }
+
+func minInt(a, b int) int {
+	if a < b {
+		return a
+	}
+	return b
+}
